@@ -700,3 +700,104 @@ func exprOrNone(e ast.Expr) string {
 	}
 	return types.ExprString(e)
 }
+
+// ---- C07.R6 no address is kept as an integer across statements in the decoders ----
+
+// unsafe.Pointer(uintptr(p) + off) is valid only as one expression. A local uintptr that was
+// computed from a pointer and is converted back later no longer keeps the object alive and is
+// not updated when a goroutine stack moves: with the destination on the stack
+// (UnmarshalNoEscape, or any destination reached through a stack-allocated value) later
+// stores go to the old address. The decoders never do this today; the rule keeps it so.
+func c07r6(rc *core.RC) {
+	p := rc.P
+	n := 0
+	for _, short := range []string{"decoder", "json"} {
+		for _, fd := range p.Funcs(short) {
+			if fd.Body == nil {
+				continue
+			}
+			info := p.Info(fd)
+			fn := p.FuncName(fd)
+			isPtrExpr := func(e ast.Expr) bool {
+				tv := info.Types[e]
+				if tv.Type == nil {
+					return false
+				}
+				if tv.Type.String() == "unsafe.Pointer" {
+					return true
+				}
+				_, isPtr := tv.Type.Underlying().(*types.Pointer)
+				return isPtr
+			}
+			// uintptr(<pointer expr>) somewhere inside e
+			fromPointer := func(e ast.Expr) bool {
+				found := false
+				ast.Inspect(e, func(k ast.Node) bool {
+					c, ok := k.(*ast.CallExpr)
+					if !ok || len(c.Args) != 1 {
+						return true
+					}
+					if tv, ok := info.Types[c.Fun]; ok && tv.IsType() && tv.Type.String() == "uintptr" && isPtrExpr(c.Args[0]) {
+						found = true
+					}
+					return true
+				})
+				return found
+			}
+			held := map[types.Object]token.Pos{}
+			ast.Inspect(fd.Body, func(m ast.Node) bool {
+				as, ok := m.(*ast.AssignStmt)
+				if !ok || len(as.Lhs) != len(as.Rhs) {
+					return true
+				}
+				for i, l := range as.Lhs {
+					o := core.ObjOf(info, l)
+					if v, ok := o.(*types.Var); ok && !v.IsField() && v.Type().String() == "uintptr" && fromPointer(as.Rhs[i]) {
+						held[o] = as.Pos()
+					}
+				}
+				return true
+			})
+			// conversions back
+			ast.Inspect(fd.Body, func(m ast.Node) bool {
+				c, ok := m.(*ast.CallExpr)
+				if !ok || len(c.Args) != 1 {
+					return true
+				}
+				tv, ok := info.Types[c.Fun]
+				if !ok || !tv.IsType() || tv.Type.String() != "unsafe.Pointer" {
+					return true
+				}
+				if at := info.Types[c.Args[0]].Type; at == nil || at.String() != "uintptr" {
+					return true
+				}
+				n++
+				var used types.Object
+				ast.Inspect(c.Args[0], func(k ast.Node) bool {
+					if id, ok := k.(*ast.Ident); ok {
+						if _, isHeld := held[info.Uses[id]]; isHeld {
+							used = info.Uses[id]
+						}
+					}
+					return true
+				})
+				if used == nil {
+					return true
+				}
+				rc.Touch(fn)
+				key := fn + "/address-held-as-integer " + used.Name()
+				if fd.Name.Name == "noescape" {
+					rc.Note(key, c.Pos(), "the noescape idiom: converted back in the next statement of a nosplit function")
+					return true
+				}
+				rc.Bad(key, c.Pos(), "`%s` converts the uintptr variable %s, computed from a pointer at %s, back to a pointer: between the two the integer does not keep the object alive and is not adjusted when the goroutine stack moves, so with a destination on the stack the store goes to the old address", core.Src(p.Fset, c), used.Name(), p.Pos(held[used]))
+				return true
+			})
+		}
+	}
+	if n < 12 {
+		rc.Unknown("decoder/pointer-arithmetic-sites", token.NoPos, "found %d uintptr→unsafe.Pointer conversions in the decoder", n)
+	} else {
+		rc.OK("decoder/pointer-arithmetic-sites", token.NoPos, "%d uintptr→unsafe.Pointer conversions examined: each takes its address from a pointer inside the same expression", n)
+	}
+}
